@@ -349,9 +349,184 @@ fn nightly_forms(cx: &mut Ctxt, msg: &Vec<u8>, nonce: &[u8; 24], key: &[u8; 32],
     Ok(())
 }
 
+
+// ---------------------------------------------------------------- call histories over a small pool of identities
+// State carried between calls (caches, reused buffers) can only show up when the SAME public key meets
+// DIFFERENT secret keys (or vice versa) in adjacent calls; single round trips never produce that.
+#[derive(Debug, Clone, Serialize, Deserialize)]
+pub enum HOp {
+    /// sender s -> recipient r through form f (0 easy, 1 detached, 2 easy_inplace, 3 object, 4 afternm)
+    Box { s: usize, r: usize, f: usize, len: usize },
+    Seal { r: usize, len: usize, object: bool },
+    Beforenm { s: usize, r: usize },
+    Secretbox { k: usize, len: usize },
+    /// open the i-th still-pending ciphertext (with the recipient's keys), through opener variant v
+    Open { i: usize, v: usize },
+}
+
+#[derive(Debug, Clone, Serialize, Deserialize)]
+pub struct HistCase {
+    pub fill: u64,
+    pub ops: Vec<HOp>,
+}
+
+enum Pending {
+    Boxed { wire: Vec<u8>, nonce: [u8; 24], s: usize, r: usize, msg: Vec<u8> },
+    Sealed { wire: Vec<u8>, r: usize, msg: Vec<u8> },
+    Secret { wire: Vec<u8>, nonce: [u8; 24], k: usize, msg: Vec<u8> },
+}
+
+pub fn check_history(c: &HistCase) -> Result<u64, String> {
+    let mut f = Fill::new(c.fill, "C01:hist");
+    let ids: Vec<([u8; 32], [u8; 32])> = (0..3).map(|_| sodium::box_seed_keypair(&f.arr())).collect();
+    let syms: Vec<[u8; 32]> = (0..2).map(|_| f.arr()).collect();
+    let mut pending: Vec<Pending> = vec![];
+    let mut n = 0u64;
+    for (step, op) in c.ops.iter().enumerate() {
+        n += 1;
+        match op {
+            HOp::Box { s, r, f: form, len } => {
+                let (s, r) = (s % 3, r % 3);
+                let msg = f.bytes(*len);
+                let nonce: [u8; 24] = f.arr();
+                let want = sodium::box_easy(&msg, &nonce, &ids[r].0, &ids[s].1).ok_or("harness: box_easy")?;
+                let got: Vec<u8> = match form % 5 {
+                    0 => {
+                        let mut ct = vec![0u8; msg.len() + 16];
+                        e(crypto_box_easy(&mut ct, &msg, &nonce, &ids[r].0, &ids[s].1), "crypto_box_easy")?;
+                        ct
+                    }
+                    1 => {
+                        let mut ct = vec![0u8; msg.len()];
+                        let mut tag = [0u8; 16];
+                        crypto_box_detached(&mut ct, &mut tag, &msg, &nonce, &ids[r].0, &ids[s].1);
+                        [tag.to_vec(), ct].concat()
+                    }
+                    2 => {
+                        let mut buf = msg.clone();
+                        buf.resize(msg.len() + 16, 0);
+                        e(crypto_box_easy_inplace(&mut buf, &nonce, &ids[r].0, &ids[s].1), "crypto_box_easy_inplace")?;
+                        buf
+                    }
+                    3 => e(DryocBox::encrypt_to_vecbox(&msg, &nonce.into(), &ids[r].0.into(), &StackByteArray::<32>::from(ids[s].1)), "DryocBox::encrypt")?.to_vec(),
+                    _ => {
+                        let k = crypto_box_beforenm(&ids[r].0, &ids[s].1);
+                        let mut ct = vec![0u8; msg.len()];
+                        let mut tag = [0u8; 16];
+                        crypto_box_detached_afternm(&mut ct, &mut tag, &msg, &nonce, &k);
+                        [tag.to_vec(), ct].concat()
+                    }
+                };
+                if got != want {
+                    return Err(format!("step {step} {op:?}: ciphertext differs from libsodium's after the preceding calls (state carried between calls?)"));
+                }
+                pending.push(Pending::Boxed { wire: got, nonce, s, r, msg });
+            }
+            HOp::Seal { r, len, object } => {
+                let r = r % 3;
+                let msg = f.bytes(*len);
+                let wire = if *object {
+                    e(DryocBox::seal_to_vecbox(&msg, &ids[r].0.into()), "DryocBox::seal")?.to_vec()
+                } else {
+                    let mut ct = vec![0u8; msg.len() + 48];
+                    e(crypto_box_seal(&mut ct, &msg, &ids[r].0), "crypto_box_seal")?;
+                    ct
+                };
+                if sodium::box_seal_open(&wire, &ids[r].0, &ids[r].1).as_deref() != Some(&msg[..]) {
+                    return Err(format!("step {step} {op:?}: libsodium cannot open the sealed box dryoc produced after the preceding calls"));
+                }
+                pending.push(Pending::Sealed { wire, r, msg });
+            }
+            HOp::Beforenm { s, r } => {
+                let (s, r) = (s % 3, r % 3);
+                let k = crypto_box_beforenm(&ids[r].0, &ids[s].1);
+                if Some(k) != sodium::box_beforenm(&ids[r].0, &ids[s].1) {
+                    return Err(format!("step {step} {op:?}: crypto_box_beforenm differs from libsodium's after the preceding calls"));
+                }
+                let p = PrecalcSecretKey::precalculate(&ids[r].0, &ids[s].1);
+                if p.as_slice() != k {
+                    return Err(format!("step {step}: PrecalcSecretKey::precalculate differs from crypto_box_beforenm"));
+                }
+            }
+            HOp::Secretbox { k, len } => {
+                let k = k % 2;
+                let msg = f.bytes(*len);
+                let nonce: [u8; 24] = f.arr();
+                let mut ct = vec![0u8; msg.len() + 16];
+                e(crypto_secretbox_easy(&mut ct, &msg, &nonce, &syms[k]), "crypto_secretbox_easy")?;
+                if ct != sodium::secretbox_easy(&msg, &nonce, &syms[k]) {
+                    return Err(format!("step {step} {op:?}: secretbox differs from libsodium's"));
+                }
+                pending.push(Pending::Secret { wire: ct, nonce, k, msg });
+            }
+            HOp::Open { i, v } => {
+                if pending.is_empty() {
+                    continue;
+                }
+                let p = pending.remove(i % pending.len());
+                let (got, msg): (Result<Vec<u8>, String>, Vec<u8>) = match p {
+                    Pending::Boxed { wire, nonce, s, r, msg } => {
+                        let mut m = vec![0u8; msg.len()];
+                        let res = match v % 3 {
+                            0 => crypto_box_open_easy(&mut m, &wire, &nonce, &ids[s].0, &ids[r].1).map(|_| m).map_err(|e| format!("{e:?}")),
+                            1 => {
+                                let mut buf = wire.clone();
+                                crypto_box_open_easy_inplace(&mut buf, &nonce, &ids[s].0, &ids[r].1).map(|_| buf[..msg.len()].to_vec()).map_err(|e| format!("{e:?}"))
+                            }
+                            _ => DryocBox::<StackByteArray<32>, StackByteArray<16>, Vec<u8>>::from_bytes(&wire)
+                                .and_then(|b| b.decrypt_to_vec(&nonce.into(), &ids[s].0.into(), &StackByteArray::<32>::from(ids[r].1)))
+                                .map_err(|e| format!("{e:?}")),
+                        };
+                        (res, msg)
+                    }
+                    Pending::Sealed { wire, r, msg } => {
+                        let mut m = vec![0u8; msg.len()];
+                        let res = if v % 2 == 0 {
+                            crypto_box_seal_open(&mut m, &wire, &ids[r].0, &ids[r].1).map(|_| m).map_err(|e| format!("{e:?}"))
+                        } else {
+                            let kp = KeyPair::<StackByteArray<32>, StackByteArray<32>>::from_slices(&ids[r].0, &ids[r].1).map_err(|e| format!("{e:?}"))?;
+                            DryocBox::<StackByteArray<32>, StackByteArray<16>, Vec<u8>>::from_sealed_bytes(&wire).and_then(|b| b.unseal_to_vec(&kp)).map_err(|e| format!("{e:?}"))
+                        };
+                        (res, msg)
+                    }
+                    Pending::Secret { wire, nonce, k, msg } => {
+                        let mut m = vec![0u8; msg.len()];
+                        (crypto_secretbox_open_easy(&mut m, &wire, &nonce, &syms[k]).map(|_| m).map_err(|e| format!("{e:?}")), msg)
+                    }
+                };
+                match got {
+                    Ok(m) if m == msg => {}
+                    Ok(_) => return Err(format!("step {step} {op:?}: opened to a different message")),
+                    Err(er) => return Err(format!("step {step} {op:?}: an authentic ciphertext was rejected after the preceding calls: {er}")),
+                }
+            }
+        }
+    }
+    Ok(n)
+}
+
+pub fn hist_strat() -> impl proptest::strategy::Strategy<Value = HistCase> {
+    use proptest::prelude::*;
+    let len = prop_oneof![Just(0usize), Just(1usize), 1usize..80];
+    let op = prop_oneof![
+        4 => (0usize..3, 0usize..3, 0usize..5, len.clone()).prop_map(|(s, r, f, len)| HOp::Box { s, r, f, len }),
+        3 => (0usize..3, len.clone(), any::<bool>()).prop_map(|(r, len, object)| HOp::Seal { r, len, object }),
+        2 => (0usize..3, 0usize..3).prop_map(|(s, r)| HOp::Beforenm { s, r }),
+        1 => (0usize..2, len).prop_map(|(k, len)| HOp::Secretbox { k, len }),
+        3 => (0usize..8, 0usize..3).prop_map(|(i, v)| HOp::Open { i, v }),
+    ];
+    (any::<u64>(), proptest::collection::vec(op, 1..24)).prop_map(|(fill, mut ops)| {
+        // open everything that is still pending at the end
+        for i in 0..24 {
+            ops.push(HOp::Open { i: 0, v: i });
+        }
+        HistCase { fill, ops }
+    })
+}
+
 pub fn run(ctx: &mut Ctx) -> Result<(), Violation> {
     let nightly_part = cfg!(feature = "nightly") && std::env::var("VERIF_PART").as_deref() == Ok("nightly");
-    ctx.rule = "Every message length 0..=L plus {1023,1024,1025,4095,4096,4097,65535,65537} x K seeded (key, nonce, key pairs from seeds via libsodium, content class) x EVERY sealing form: classic secretbox/box/afternm in easy, detached, in-place; seal; object API encrypt/precalc_encrypt/seal with to_vec/to_bytes/into_vec/into_parts/from_bytes over array, StackByteArray, Vec, &[u8] containers (heap, locked, read-only locked containers in the nightly sub-run). Oracle: tag and ciphertext bytes == libsodium's for the same inputs; beforenm == libsodium; the resulting wire opens to the original under libsodium and under EVERY dryoc opener (20 forms); sealed boxes (ephemeral key chosen by dryoc): layout epk||box(msg, BLAKE2b-24(epk||rpk)) checked with the reference and opened by libsodium, libsodium-sealed opened by dryoc. Non-trivial: message length >= 1; distinct = hash(len, key, nonce, seeds, part).".into();
+    ctx.rule = "Call histories (proptest, shrinking): sequences of box (5 forms) / seal / beforenm / secretbox / open over a pool of 3 identities, so adjacent calls share one key half but not the other; every ciphertext must equal libsodium's and every pending ciphertext must open later in any order. Enumerated: every message length 0..=L plus {1023,1024,1025,4095,4096,4097,65535,65537} x K seeded (key, nonce, key pairs from seeds via libsodium, content class) x EVERY sealing form: classic secretbox/box/afternm in easy, detached, in-place; seal; object API encrypt/precalc_encrypt/seal with to_vec/to_bytes/into_vec/into_parts/from_bytes over array, StackByteArray, Vec, &[u8] containers (heap, locked, read-only locked containers in the nightly sub-run). Oracle: tag and ciphertext bytes == libsodium's for the same inputs; beforenm == libsodium; the resulting wire opens to the original under libsodium and under EVERY dryoc opener (20 forms); sealed boxes (ephemeral key chosen by dryoc): layout epk||box(msg, BLAKE2b-24(epk||rpk)) checked with the reference and opened by libsodium, libsodium-sealed opened by dryoc. Non-trivial: message length >= 1; distinct = hash(len, key, nonce, seeds, part).".into();
     ctx.assumptions = vec!["libsodium 1.0.18 is the byte-level reference".into(), "key pairs are derived from seeds by libsodium (honest pairs)".into()];
     let l = ctx.tier.pick(320usize, 1100);
     let k = ctx.tier.pick(if nightly_part { 1usize } else { 4 }, if nightly_part { 2 } else { 8 });
@@ -394,11 +569,32 @@ pub fn run(ctx: &mut Ctx) -> Result<(), Violation> {
         let _ = &forms;
         Ok(())
     })?;
+    if !nightly_part {
+        let n = ctx.tier.pick(4000u32, 100_000);
+        let shards: Vec<u64> = (0..ctx.threads as u64).collect();
+        let per = n / ctx.threads.max(1) as u32 + 1;
+        ctx.par_each(&shards, |_, &sh, ev| {
+            run_prop("C01", "aead-history", seed.wrapping_mul(2_147_483_659).wrapping_add(sh), per, hist_strat(), ev, |c, ev| {
+                let n = check_history(c)?;
+                ev.eval(n);
+                ev.class_n("history-steps(3 identities, adjacent calls sharing one key half)", n);
+                ev.nontrivial(fnv64(&[serde_json::to_string(c).unwrap().as_bytes()]));
+                if c.ops.len() < 30 {
+                    ev.sample("history", || json!({"ops": c.ops.iter().take(8).map(|o| format!("{o:?}")).collect::<Vec<_>>()}));
+                }
+                Ok(())
+            })
+        })?;
+    }
     ctx.ev.extra.insert("message_lengths".into(), json!(format!("every 0..={} plus multi-KiB lengths", lens.iter().filter(|x| **x < 1000).max().unwrap_or(&0))));
     Ok(())
 }
 
 pub fn replay(v: &Violation) -> Result<(), String> {
+    if v.kind == "aead-history" {
+        let c: HistCase = from_case(&v.case)?;
+        return check_history(&c).map(|_| ());
+    }
     let c: Case = from_case(&v.case)?;
     let mut seen = vec![];
     check(&c, &mut seen).map(|_| ())
